@@ -244,7 +244,7 @@ def check(prop, tier, seed):
         mine.setdefault(key, []).append((dict(case=c["case"], arm=c["arm"], run=None), dict(property=prop, clause=prop + "/crash", message="simulator process died (rc=%s) %s" % (c["rc"], c["stderr"]))))
     for u in miri_ub:
         key = "%s/miri-ub/%s" % (prop, u["kind"][:60])
-        mine.setdefault(key, []).append((dict(case=u["case"], arm="miri", run=None), dict(property=prop, clause=prop + "/miri-ub", message=u["kind"] + "\n" + u["stderr"][-1500:])))
+        mine.setdefault(key, []).append((dict(case=u["case"], arm="miri", run=None, miri_key=u["kind"]), dict(property=prop, clause=prop + "/miri-ub", message=u["kind"] + "\n" + u["stderr"][-1500:])))
 
     exit_code = EXIT_OK
     reported = []
@@ -258,12 +258,15 @@ def check(prop, tier, seed):
         arm = v.get("arm", "dev")
         case = v["case"]
         minimal, tried = case, 0
-        if case is not None and arm in bins:
+        if case is not None and arm == "miri":
+            mk = v.get("miri_key")
+            minimal, tried = minimise(case, simpler_cases, lambda c: eval_case_miri(c)[2] == mk, budget=20)
+        elif case is not None and arm in bins:
             minimal, tried = minimise_case(bins[arm], case, viol["clause"])
             status, viols = eval_case(bins[arm], minimal)
             if status == "ok":
                 minimal = case
-        doc = dict(property=prop, simulator="SIM-V", tier=tier, seed=seed, run=v.get("run"), build=dict(profile=arm), key=key,
+        doc = dict(property=prop, simulator="SIM-V", tier=tier, seed=seed, run=v.get("run"), build=dict(profile=arm, miri_seed=0 if arm == "miri" else None), key=key,
                    violation=viol, case=minimal, original_case=case, minimisation_attempts=tried,
                    replay_cmd="./check replay <this file>")
         path = write_replay(prop, seed, doc)
@@ -316,11 +319,31 @@ def check(prop, tier, seed):
     return exit_code
 
 
+def eval_case_miri(case, miri_seed=0, timeout=1800):
+    """One case under the interpreter: (status ok|violation|ub, violations, normalised diagnostic)."""
+    import simr
+    env = cargo_env()
+    env["CARGO_TARGET_DIR"] = os.path.join(TARGET, "miri")
+    env["MIRIFLAGS"] = "-Zmiri-ignore-leaks -Zmiri-symbolic-alignment-check -Zmiri-seed=%d" % miri_seed
+    p = subprocess.run(["cargo", "+nightly", "miri", "run", "--offline", "-q", "-p", "vecsim", "--", "case", "--json", json.dumps(case)],
+                       cwd=SIM, env=env, stdout=subprocess.PIPE, stderr=subprocess.PIPE, text=True, errors="replace", timeout=timeout)
+    if p.returncode in (0, 1) and p.stdout.strip().startswith("{"):
+        rep = json.loads(p.stdout.strip().splitlines()[-1])
+        return ("violation" if rep["violations"] else "ok"), rep["violations"], ""
+    kind, where = simr.parse_miri(p.stderr)
+    return "ub", [], "%s @ %s" % (kind, where) if where else kind
+
+
 def replay(doc):
     prop = doc["property"]
     profile = doc.get("build", {}).get("profile", "dev")
     if profile == "miri":
-        profile = "dev"
+        status, viols, diag = eval_case_miri(doc["case"], doc.get("build", {}).get("miri_seed") or 0)
+        if status == "ub":
+            log("replay: Miri reports again: " + diag)
+            return EXIT_VIOLATION
+        log("replay: Miri arm did not reproduce (%s)" % status)
+        return EXIT_OK
     binary, _ = cargo_build("vecsim", profile)
     os.makedirs(WORK, exist_ok=True)
     status, viols = eval_case(binary, doc["case"])
